@@ -410,6 +410,57 @@ pub fn minimise<P: Prop>(
     }
 }
 
+/// Run the greedy minimiser in a child process (`abasic-sim minimise`), so that a candidate that
+/// aborts the process (stack overflow, failed allocation) cannot take the supervisor down. If the
+/// child dies, fall back to executing every candidate in its own process; if that fails, keep the case.
+pub fn minimise_in_child<P: Prop>(case: &P::Case, target: &Violation, dir: &Path, isolated: bool, budget_s: f64) -> (P::Case, u64) {
+    if isolated {
+        return minimise::<P>(case.clone(), target, dir, true, budget_s);
+    }
+    let inp = dir.join("min-in.json");
+    let outp = dir.join("min-out.json");
+    let _ = std::fs::remove_file(&outp);
+    let doc = json!({"case": case, "violation": target, "budget_s": budget_s});
+    if std::fs::write(&inp, serde_json::to_vec(&doc).unwrap()).is_ok() {
+        let st = Command::new(self_exe())
+            .args(["minimise", P::ID, inp.to_str().unwrap(), outp.to_str().unwrap()])
+            .stdin(Stdio::null())
+            .stdout(Stdio::null())
+            .stderr(Stdio::null())
+            .status();
+        if let Ok(st) = st {
+            if st.success() {
+                if let Ok(txt) = std::fs::read_to_string(&outp) {
+                    if let Ok(v) = serde_json::from_str::<Value>(&txt) {
+                        if let Ok(c) = serde_json::from_value::<P::Case>(v["case"].clone()) {
+                            return (c, v["execs"].as_u64().unwrap_or(0));
+                        }
+                    }
+                }
+            }
+        }
+    }
+    // the in-process minimiser died: one process per candidate, smaller budget
+    minimise::<P>(case.clone(), target, dir, true, budget_s.min(30.0))
+}
+
+/// entry point of the `minimise` child process
+pub fn minimise_main<P: Prop>(inp: &Path, outp: &Path) -> i32 {
+    crate::sess::install_panic_hook();
+    let Ok(txt) = std::fs::read_to_string(inp) else { return 2 };
+    let Ok(doc) = serde_json::from_str::<Value>(&txt) else { return 2 };
+    let Ok(case) = serde_json::from_value::<P::Case>(doc["case"].clone()) else { return 2 };
+    let Ok(target) = serde_json::from_value::<Violation>(doc["violation"].clone()) else { return 2 };
+    let budget = doc["budget_s"].as_f64().unwrap_or(30.0);
+    let dir = inp.parent().unwrap_or(Path::new("/tmp")).to_path_buf();
+    let (small, execs) = minimise::<P>(case, &target, &dir, false, budget);
+    let out = json!({"case": small, "execs": execs});
+    if std::fs::write(outp, serde_json::to_vec(&out).unwrap()).is_err() {
+        return 2;
+    }
+    0
+}
+
 /// ddmin-style candidates for a vector: drop halves, quarters, ..., single elements.
 pub fn shrink_vec<T: Clone>(v: &[T]) -> Vec<Vec<T>> {
     let mut out = vec![];
@@ -799,15 +850,11 @@ fn check_inner<P: Prop>(a: &CheckArgs, meta: &Meta, runs: u64, dir: &Path, start
     for f in fresh {
         let per = (90.0 / nfresh as f64).max(10.0);
         let orig_size = serde_json::to_string(&f.case).map(|s| s.len()).unwrap_or(0);
-        let (small, execs) = minimise::<P>(f.case.clone(), &f.violation, dir, f.isolated, per);
+        let (small, execs) = minimise_in_child::<P>(&f.case, &f.violation, dir, f.isolated, per);
         // re-derive the violation detail from the minimised case
         let small_v = serde_json::to_value(&small).unwrap();
-        let v2 = if f.isolated {
-            exec_isolated(P::ID, dir, &small_v, "fin").ok().flatten()
-        } else {
-            let mut ctx = Ctx::new(P::ID, a.tier);
-            P::execute(&small, &mut ctx)
-        };
+        // (always in a child process: a case that aborts must not take the supervisor down)
+        let v2 = exec_isolated(P::ID, dir, &small_v, "fin").ok().flatten();
         let (case_v, viol) = match v2 {
             Some(v2) if v2.same_as(&f.violation) => (small_v, v2),
             _ => (serde_json::to_value(&f.case).unwrap(), f.violation.clone()),
